@@ -9,7 +9,11 @@ Run it only after reading the diff of the source: the text frozen here is "what 
 written against"."""
 import re, sys, os
 ROOT = os.path.dirname(os.path.dirname(os.path.abspath(__file__)))
-gen, cxx, only = sys.argv[1], sys.argv[2], sys.argv[3:]
+args = sys.argv[1:]
+thm_name = "code_matches_model"
+if "--name" in args:
+    i = args.index("--name"); thm_name = args[i + 1]; del args[i:i + 2]
+gen, cxx, only = args[0], args[1], args[2:]
 src = open(f"{ROOT}/lean/SamVerif/Gen/{gen}.lean").read()
 defs = re.findall(r"^def (\w+) : List String :=\n((?:  .*\n)+)", src, re.M)
 defs = [(n, b) for n, b in defs if not only or n in only]
@@ -21,14 +25,14 @@ for n, b in defs:
 thm = ("/-- **The code the model was written against.** The statements of the modelled functions,\n"
        "regenerated from the current source on every run, are the ones the model was written against;\n"
        "any edit to one of them makes this obligation fail and starts a search for a failing input. -/\n"
-       f"theorem code_matches_model :\n" + " ∧\n".join(parts) + " := by\n"
+       f"theorem {thm_name} :\n" + " ∧\n".join(parts) + " := by\n"
        "  refine ⟨" + ", ".join(["rfl"] * len(defs)) + "⟩\n" if len(defs) > 1 else
        "/-- **The code the model was written against.** -/\n"
-       f"theorem code_matches_model :\n{parts[0]} := rfl\n")
+       f"theorem {thm_name} :\n{parts[0]} := rfl\n")
 pf = f"{ROOT}/lean/SamVerif/Props/{cxx}.lean"
 t = open(pf).read()
 ns = f"SamVerif.Props.{cxx}"
-t = re.sub(r"/-- \*\*The code the model was written against\.\*\*.*?theorem code_matches_model :.*?(?=\nend " + re.escape(ns) + ")", "", t, flags=re.S)
+t = re.sub(r"/-- \*\*The code the model was written against\.\*\*(?:(?!/-- ).)*?theorem " + thm_name + r" :.*?(?=\n/-- |\nend " + re.escape(ns) + ")", "", t, flags=re.S)
 k = t.rindex("end " + ns)
 t = t[:k].rstrip("\n") + "\n\n" + thm + "\n" + t[k:]
 imp = f"import SamVerif.Gen.{gen}\n"
@@ -37,8 +41,8 @@ if imp not in t:
     idx = max(i for i, l in enumerate(lines) if l.startswith("import "))
     lines.insert(idx + 1, imp.rstrip("\n"))
     t = "\n".join(lines)
-pa = f"#print axioms {ns}.code_matches_model"
+pa = f"#print axioms {ns}.{thm_name}"
 if pa not in t:
     t = t.rstrip("\n") + "\n" + pa + "\n"
 open(pf, "w").write(t)
-print(f"{cxx}: code_matches_model over {len(defs)} definitions of Gen.{gen}")
+print(f"{cxx}: {thm_name} over {len(defs)} definitions of Gen.{gen}")
